@@ -19,6 +19,7 @@
 from __future__ import print_function
 
 import sys
+import socket
 import getopt
 import json
 import logging
@@ -659,15 +660,29 @@ def main():
             ipmi.session.set_priv_level(rmcp_priv_level)
 
     try:
-        ipmi.open()  # this will open interface and session
-        cmd(ipmi, args)
+        try:
+            ipmi.open()  # this will open interface and session
+            cmd(ipmi, args)
+        finally:
+            # an error of close() is reported like one of the command
+            ipmi.close()  # this will close interface and session
     except pyipmi.errors.CompletionCodeError as e:
         print('Command returned with completion code 0x%02x' % e.cc)
         if verbose:
             traceback.print_exc()
         sys.exit(1)
-    except pyipmi.errors.IpmiTimeoutError:
+    except (pyipmi.errors.IpmiTimeoutError, socket.timeout):
         print('Command timed out')
+        if verbose:
+            traceback.print_exc()
+        sys.exit(1)
+    except (pyipmi.errors.RetryError, pyipmi.errors.HpmError,
+            pyipmi.errors.IpmiConnectionError,
+            pyipmi.errors.IpmiLongPasswordError,
+            pyipmi.errors.DecodingError, pyipmi.errors.EncodingError,
+            pyipmi.errors.NotSupportedError, pyipmi.errors.DescriptionError,
+            pyipmi.errors.DataNotFound) as e:
+        print('Command failed: %r' % e)
         if verbose:
             traceback.print_exc()
         sys.exit(1)
@@ -675,9 +690,6 @@ def main():
         if verbose:
             traceback.print_exc()
         sys.exit(1)
-
-    finally:
-        ipmi.close()  # this will close interface and session
 
 
 COMMANDS = (
